@@ -40,7 +40,8 @@ theorem skeleton_ok :
     Facts.C19.condsTimeFromExcelTime =
       ["if wholeDaysPart <= 61", "if date1904", "if date1904", "if date.Nanosecond()/1e6 > 500"] ∧
     Facts.C19.condsExcelDateToTime = ["if excelDate < 0"] ∧
-    Facts.C19.stmtIsNum = "isNum = excelTime > 0" ∧
+    Facts.C19.stmtIsNum = "isNum = !value.Before(firstInstant)" ∧
+    Facts.C19.stmtsFirstInstant = ["firstInstant := excelMinTime1900", "firstInstant = excel1904Epoc"] ∧
     Facts.C19.condsShiftJulianToNoon =
       ["case -0.5 < julianFraction && julianFraction < 0.5", "case julianFraction >= 0.5", "case julianFraction <= -0.5"] ∧
     Facts.C19.stmtsShiftJulianToNoon =
@@ -292,29 +293,20 @@ theorem decode_subsecond_seconds (x : Rat) (date1904 : Bool) (D k f : Int) (h62 
         (if date1904 then epoch1904 else epoch1900) + (D * 86400000000000 + (k + 1) * 1000000000)) :=
   decode_subsecond x date1904 D k f h62 hk0 hf0 hf hx
 
-/-- what `setCellTime` stores, for every instant and zone offset: a number iff the wall clock is
-strictly after the system's first instant (1899-12-31T00:00 resp. 1904-01-01T00:00) -/
+/-- what `setCellTime` stores, for every instant and zone offset: a number iff the wall clock is not
+before the system's first instant (1899-12-31T00:00 resp. 1904-01-01T00:00) — serial 0 included -/
 theorem stored_numeric_iff (utc off : Int) (date1904 : Bool) :
     (∃ n, setCellTime utc off date1904 = .num n) ↔
-      (if date1904 then epoch1904 else minTime1900) < utc + off * nsPerSec := by
-  obtain ⟨_, e4, emin, eb⟩ := epochs_ok
-  have aux : ∀ X : Int, (∃ n, (if X > 0 then Stored.num X else Stored.text) = .num n) ↔ X > 0 := by
-    intro X
-    by_cases hX : X > 0
-    · rw [if_pos hX]; exact ⟨fun _ => hX, fun _ => ⟨X, rfl⟩⟩
-    · rw [if_neg hX]
-      exact ⟨fun h => (by obtain ⟨n, hn⟩ := h; cases hn), fun h => absurd h hX⟩
+      (if date1904 then epoch1904 else minTime1900) ≤ utc + off * nsPerSec := by
   unfold setCellTime
   simp only []
-  rw [aux, serial_exact, e4, emin, eb]
   generalize utc + off * nsPerSec = w
-  cases date1904
-  · simp only [Bool.false_eq_true, if_false]
-    split
-    · omega
-    · split <;> omega
-  · simp only [if_true]
-    split <;> omega
+  generalize (if date1904 then epoch1904 else minTime1900) = first
+  by_cases hw : w < first
+  · rw [if_neg (by omega)]
+    exact ⟨fun h => (by obtain ⟨n, hn⟩ := h; cases hn), fun h => by omega⟩
+  · rw [if_pos hw]
+    exact ⟨fun _ => by omega, fun _ => ⟨_, rfl⟩⟩
 
 /-- clause "zone offset folded into the value": the stored value depends on the instant and the
 zone only through the wall clock utc + offset -/
@@ -323,36 +315,44 @@ theorem zone_invariant (utc off utc' off' : Int) (date1904 : Bool)
     setCellTime utc off date1904 = setCellTime utc' off' date1904 := by
   unfold setCellTime; simp only []; rw [h]
 
-/-- clause "converting a time.Time to a serial number as SetCellValue stores it and back with
-ExcelDateToTime returns the same wall-clock date and time to the second, whatever zone":
-for every valid date from 1900-03-01 (1900 system) / 1904-01-01 (1904 system) on — no upper bound —
-every clock reading h:mi:s, every zone offset, and every stored value x within `decTol` of the exact
-serial, provided the value was stored as a number, ExcelDateToTime(x) reads exactly (y,m,d,h,mi,s).
-`_partial`: the hypothesis "stored as a number" excludes exactly one instant of the property's
-range, see `finding_epoch1904_midnight_is_text`. -/
-theorem serial_roundtrip_partial (y m d h mi s off : Int) (date1904 : Bool) (x : Rat) (n : Int)
+/-- what is stored, as a function of the wall-clock instant only -/
+theorem setCellTime_wall (w off : Int) (date1904 : Bool) :
+    setCellTime (w - off * nsPerSec) off date1904 =
+      if ¬ w < (if date1904 then epoch1904 else minTime1900) then .num (timeToExcelTimeNs w date1904) else .text := by
+  unfold setCellTime; simp only [Int.sub_add_cancel]
+
+/-- every wall clock of the property's range (from 1900-03-01 resp. 1904-01-01 00:00:00, the very
+first instant included; no upper bound), read in any zone, is stored as the number
+`timeToExcelTimeNs / dayNanoseconds` -/
+theorem stored_numeric (c : Civil) (off : Int) (date1904 : Bool) (hw : ValidWall c)
+    (hr : if date1904 then -24107 ≤ daysFromCivil c.y c.m c.d else -25508 ≤ daysFromCivil c.y c.m c.d) :
+    setCellTime (instantOf c - off * nsPerSec) off date1904 = .num (timeToExcelTimeNs (instantOf c) date1904) := by
+  obtain ⟨hv, h0, h1, m0, m1, s0, s1, hns0⟩ := hw
+  obtain ⟨_, e4, emin, _⟩ := epochs_ok
+  rw [setCellTime_wall, if_pos]
+  unfold instantOf
+  have hns : nsPerSec = 1000000000 := by decide
+  rw [hns, hns0, e4, emin]
+  cases date1904
+  · simp only [Bool.false_eq_true, if_false] at hr ⊢; omega
+  · simp only [if_true] at hr ⊢; omega
+
+/-- decoding core of the round trip: for every valid date from 1900-03-01 / 1904-01-01 on — no
+upper bound — and every clock reading, every non-negative x within `decTol` of the exact serial of
+that wall clock reads back, through `ExcelDateToTime`, as exactly that wall clock -/
+theorem serial_roundtrip_decode (y m d h mi s : Int) (date1904 : Bool) (x : Rat)
     (hv : ValidDate y m d)
     (hr : if date1904 then -24107 ≤ daysFromCivil y m d else -25508 ≤ daysFromCivil y m d)
     (hh0 : 0 ≤ h) (hh : h < 24) (hm0 : 0 ≤ mi) (hm : mi < 60) (hs0 : 0 ≤ s) (hs : s < 60)
-    (hstored : setCellTime (instantOf { y := y, m := m, d := d, h := h, mi := mi, s := s, ns := 0 } - off * nsPerSec)
-        off date1904 = .num n)
-    (hx : |x - (n : Rat) / (Facts.C19.dayNanoseconds : Rat)| ≤ decTol (n / 86400000000000)) :
+    (hx0 : 0 ≤ x)
+    (hx : |x - timeToExcelTime (instantOf { y := y, m := m, d := d, h := h, mi := mi, s := s, ns := 0 }) date1904|
+      ≤ decTol (timeToExcelTimeNs (instantOf { y := y, m := m, d := d, h := h, mi := mi, s := s, ns := 0 }) date1904
+          / 86400000000000)) :
     (excelDateToTime x date1904).map civilOf
       = .ok { y := y, m := m, d := d, h := h, mi := mi, s := s, ns := 0 } := by
-  -- the stored number is the closed-form serial
-  have hn : n = (daysFromCivil y m d - (if date1904 then -24107 else -25569)) * 86400000000000
-      + (h * 3600 + mi * 60 + s) * 1000000000 ∧ 0 < n := by
-    have aux : ∀ X : Int, (if X > 0 then Stored.num X else Stored.text) = .num n → n = X ∧ 0 < n := by
-      intro X hX
-      by_cases hp : X > 0
-      · rw [if_pos hp] at hX; injection hX with e; omega
-      · rw [if_neg hp] at hX; cases hX
-    unfold setCellTime at hstored
-    simp only [Int.sub_add_cancel] at hstored
-    rw [serial_daycount_closed y m d h mi s date1904 hr hh0 hm0 hs0] at hstored
-    exact aux _ hstored
-  obtain ⟨hn, hnpos⟩ := hn
-  generalize hDdef : daysFromCivil y m d - (if date1904 then -24107 else -25569) = D at hn
+  unfold timeToExcelTime at hx
+  rw [serial_daycount_closed y m d h mi s date1904 hr hh0 hm0 hs0] at hx
+  generalize hDdef : daysFromCivil y m d - (if date1904 then -24107 else -25569) = D at hx
   have hD0 : 0 ≤ D := by
     rw [← hDdef]; cases date1904
     · simp only [Bool.false_eq_true, if_false] at hr ⊢; omega
@@ -360,34 +360,18 @@ theorem serial_roundtrip_partial (y m d h mi s off : Int) (date1904 : Bool) (x :
   have hk0 : 0 ≤ h * 3600 + mi * 60 + s := by omega
   have hk : h * 3600 + mi * 60 + s < 86400 := by omega
   generalize hkdef : h * 3600 + mi * 60 + s = k at *
-  have hnD : n / 86400000000000 = D := by omega
+  have hnD : (D * 86400000000000 + k * 1000000000) / 86400000000000 = D := by omega
   rw [hnD] at hx
   have hd : Facts.C19.dayNanoseconds = 86400000000000 := by decide
-  have hq : (n : Rat) / (Facts.C19.dayNanoseconds : Rat) = (D : Rat) + (k : Rat) / 86400 := by
-    rw [hd, hn]; push_cast; ring
+  have hq : ((D * 86400000000000 + k * 1000000000 : Int) : Rat) / (Facts.C19.dayNanoseconds : Rat)
+      = (D : Rat) + (k : Rat) / 86400 := by
+    rw [hd]; push_cast; ring
   rw [hq] at hx
   have hdec := decode_tolerant x date1904 D k hD0 hk0 hk hx
-  -- x is not negative (n > 0 is at least one second, far more than the tolerance)
-  have hxpos : ¬ x < 0 := by
-    intro hneg
-    have hlo := (abs_le.mp hx).1
-    have hkq : (0 : Rat) ≤ (k : Rat) := by exact_mod_cast hk0
-    have hDq : (0 : Rat) ≤ (D : Rat) := by exact_mod_cast hD0
-    have htol : decTol D ≤ 1 / 262144 := by
-      unfold decTol; split
-      · rw [pow2_38]; norm_num
-      · rw [pow2_18]
-    have hone : (1 : Rat) ≤ (D : Rat) * 86400 + (k : Rat) := by
-      have : (1 : Int) ≤ D * 86400 + k := by omega
-      exact_mod_cast this
-    have : (1 : Rat) / 86400 ≤ (D : Rat) + (k : Rat) / 86400 := by
-      rw [div_le_iff₀ (by norm_num)]; linarith
-    linarith
   unfold excelDateToTime
-  rw [if_neg hxpos]
+  rw [if_neg (not_lt.mpr hx0)]
   simp only [Except.map]
   rw [hdec]
-  -- the decoded instant is the wall-clock instant
   obtain ⟨e0, e4, _, _⟩ := epochs_ok
   have hinst : (if date1904 then epoch1904 else epoch1900) + (D * 86400000000000 + k * 1000000000)
       = instantOf { y := y, m := m, d := d, h := h, mi := mi, s := s, ns := 0 } := by
@@ -399,95 +383,57 @@ theorem serial_roundtrip_partial (y m d h mi s off : Int) (date1904 : Bool) (x :
     · simp only [if_true]; omega
   rw [hinst, civilOf_instantOf y m d h mi s hv hh0 hh hm0 hm hs0 hs]
 
-/-- in the 1900 system every instant of the property's range is stored as a number, so the round
-trip holds there at full strength -/
-theorem stored_numeric_1900 (y m d h mi s off : Int)
-    (hr : -25508 ≤ daysFromCivil y m d) (hh0 : 0 ≤ h) (hm0 : 0 ≤ mi) (hs0 : 0 ≤ s) :
-    ∃ n, setCellTime (instantOf { y := y, m := m, d := d, h := h, mi := mi, s := s, ns := 0 } - off * nsPerSec)
-        off false = .num n := by
-  rw [stored_numeric_iff]
-  obtain ⟨_, _, emin, _⟩ := epochs_ok
-  simp only [Bool.false_eq_true, if_false, Int.sub_add_cancel]
-  rw [emin]
-  unfold instantOf; simp only []
-  have hns : nsPerSec = 1000000000 := by decide
-  rw [hns]; omega
+/-- clause "converting a time.Time to a serial number as SetCellValue stores it and back with
+ExcelDateToTime returns the same wall-clock date and time to the second, whatever zone", at FULL
+strength in both date systems (since the repair of `setCellTime`'s number/text predicate): for every
+valid wall clock from 1900-03-01 (1900 system) / 1904-01-01 00:00:00 (1904 system) on — no upper
+bound —, every zone offset: the value is stored as the number `timeToExcelTimeNs / dayNanoseconds`,
+and every non-negative x within `decTol` of it reads back as exactly the original wall clock.
+(`0 ≤ x`: `ExcelDateToTime` rejects negative input; it matters only at serial 0, and the stored value
+is never negative, see `serial_roundtrip_stdmodel`.) -/
+theorem serial_roundtrip (c : Civil) (off : Int) (date1904 : Bool) (x : Rat) (hw : ValidWall c)
+    (hr : if date1904 then -24107 ≤ daysFromCivil c.y c.m c.d else -25508 ≤ daysFromCivil c.y c.m c.d)
+    (hx0 : 0 ≤ x)
+    (hx : |x - timeToExcelTime (instantOf c) date1904|
+      ≤ decTol (timeToExcelTimeNs (instantOf c) date1904 / 86400000000000)) :
+    setCellTime (instantOf c - off * nsPerSec) off date1904 = .num (timeToExcelTimeNs (instantOf c) date1904) ∧
+    (excelDateToTime x date1904).map civilOf = .ok c := by
+  refine ⟨stored_numeric c off date1904 hw hr, ?_⟩
+  obtain ⟨hv, h0, h1, m0, m1, s0, s1, hns0⟩ := hw
+  have hc : c = { y := c.y, m := c.m, d := c.d, h := c.h, mi := c.mi, s := c.s, ns := 0 } := by
+    cases c; simp only [] at hns0; subst hns0; rfl
+  have := serial_roundtrip_decode c.y c.m c.d c.h c.mi c.s date1904 x hv hr h0 h1 m0 m1 s0 s1 hx0
+    (by rw [← hc]; exact hx)
+  rw [← hc] at this
+  exact this
 
-/-- what is stored, as a function of the wall-clock instant only -/
-theorem setCellTime_wall (w off : Int) (date1904 : Bool) :
-    setCellTime (w - off * nsPerSec) off date1904 =
-      if timeToExcelTimeNs w date1904 > 0 then .num (timeToExcelTimeNs w date1904) else .text := by
-  unfold setCellTime; simp only [Int.sub_add_cancel]
-
-/-- the round trip clause at FULL strength in the 1900 system: every valid date from 1900-03-01 on
-(no upper bound), every clock reading, every zone offset: the value is stored as the number
-`timeToExcelTimeNs / dayNanoseconds`, and every x within `decTol` of it reads back as exactly the
-original wall clock -/
+/-- in the 1900 system the non-negativity of x follows from the tolerance (the range starts at serial 61) -/
 theorem serial_roundtrip_1900 (c : Civil) (off : Int) (x : Rat) (hw : ValidWall c)
     (hr : -25508 ≤ daysFromCivil c.y c.m c.d)
     (hx : |x - timeToExcelTime (instantOf c) false| ≤ decTol (timeToExcelTimeNs (instantOf c) false / 86400000000000)) :
     setCellTime (instantOf c - off * nsPerSec) off false = .num (timeToExcelTimeNs (instantOf c) false) ∧
     (excelDateToTime x false).map civilOf = .ok c := by
+  apply serial_roundtrip c off false x hw (by simp only [Bool.false_eq_true, if_false]; exact hr) _ hx
   obtain ⟨hv, h0, h1, m0, m1, s0, s1, hns0⟩ := hw
   have hc : c = { y := c.y, m := c.m, d := c.d, h := c.h, mi := c.mi, s := c.s, ns := 0 } := by
     cases c; simp only [] at hns0; subst hns0; rfl
-  obtain ⟨n, hn⟩ := stored_numeric_1900 c.y c.m c.d c.h c.mi c.s off hr h0 m0 s0
-  rw [← hc] at hn
-  have hn' := hn
-  rw [setCellTime_wall] at hn'
-  have hnum : n = timeToExcelTimeNs (instantOf c) false := by
-    split at hn'
-    · injection hn' with e; exact e.symm
-    · cases hn'
-  subst hnum
-  refine ⟨hn, ?_⟩
-  have := serial_roundtrip_partial c.y c.m c.d c.h c.mi c.s off false x _ hv
-    (by simp only [Bool.false_eq_true, if_false]; exact hr) h0 h1 m0 m1 s0 s1 (by rw [← hc]; exact hn)
-    (by unfold timeToExcelTime at hx; exact hx)
-  rw [← hc] at this
-  exact this
-
-/-- the round trip clause in the 1904 system, as strong as the code allows: for every valid date
-from 1904-01-01 on, every clock reading, every zone offset, EITHER the wall clock is exactly
-1904-01-01 00:00:00 and the value is stored as text (the finding), OR the value is stored as the
-number `timeToExcelTimeNs / dayNanoseconds` and every x within `decTol` of it reads back as exactly
-the original wall clock -/
-theorem serial_roundtrip_1904 (c : Civil) (off : Int) (x : Rat) (hw : ValidWall c)
-    (hr : -24107 ≤ daysFromCivil c.y c.m c.d)
-    (hx : |x - timeToExcelTime (instantOf c) true| ≤ decTol (timeToExcelTimeNs (instantOf c) true / 86400000000000)) :
-    (c = { y := 1904, m := 1, d := 1, h := 0, mi := 0, s := 0, ns := 0 } ∧
-      setCellTime (instantOf c - off * nsPerSec) off true = .text) ∨
-    (setCellTime (instantOf c - off * nsPerSec) off true = .num (timeToExcelTimeNs (instantOf c) true) ∧
-      (excelDateToTime x true).map civilOf = .ok c) := by
-  obtain ⟨hv, h0, h1, m0, m1, s0, s1, hns0⟩ := hw
-  have hc : c = { y := c.y, m := c.m, d := c.d, h := c.h, mi := c.mi, s := c.s, ns := 0 } := by
-    cases c; simp only [] at hns0; subst hns0; rfl
-  have hclosed := serial_daycount_closed c.y c.m c.d c.h c.mi c.s true
-    (by simp only [if_true]; exact hr) h0 m0 s0
+  have hclosed := serial_daycount_closed c.y c.m c.d c.h c.mi c.s false
+    (by simp only [Bool.false_eq_true, if_false]; exact hr) h0 m0 s0
   rw [← hc] at hclosed
-  simp only [if_true] at hclosed
-  by_cases hpos : timeToExcelTimeNs (instantOf c) true > 0
-  · right
-    have hst : setCellTime (instantOf c - off * nsPerSec) off true = .num (timeToExcelTimeNs (instantOf c) true) := by
-      rw [setCellTime_wall, if_pos hpos]
-    refine ⟨hst, ?_⟩
-    have := serial_roundtrip_partial c.y c.m c.d c.h c.mi c.s off true x _ hv
-      (by simp only [if_true]; exact hr) h0 h1 m0 m1 s0 s1 (by rw [← hc]; exact hst)
-      (by unfold timeToExcelTime at hx; exact hx)
-    rw [← hc] at this
-    exact this
-  · left
-    have hst : setCellTime (instantOf c - off * nsPerSec) off true = .text := by
-      rw [setCellTime_wall, if_neg hpos]
-    refine ⟨?_, hst⟩
-    -- serial 0 with a date ≥ 1904-01-01 forces day number −24107 and clock 00:00:00
-    have hz : daysFromCivil c.y c.m c.d = -24107 ∧ c.h = 0 ∧ c.mi = 0 ∧ c.s = 0 := by
-      rw [hclosed] at hpos; omega
-    have hdate := civil_injective c.y c.m c.d 1904 1 1 hv (by decide)
-      (by rw [hz.1]; decide)
-    injection hdate with e1 e23
-    injection e23 with e2 e3
-    rw [hc, e1, e2, e3, hz.2.1, hz.2.2.1, hz.2.2.2]
+  simp only [Bool.false_eq_true, if_false] at hclosed
+  have hd : Facts.C19.dayNanoseconds = 86400000000000 := by decide
+  unfold timeToExcelTime at hx
+  rw [hd] at hx
+  have hlo := (abs_le.mp hx).1
+  have htol : decTol (timeToExcelTimeNs (instantOf c) false / 86400000000000) ≤ 1 / 262144 := by
+    unfold decTol; split
+    · rw [pow2_38]; norm_num
+    · rw [pow2_18]
+  have hbig : (61 : Rat) ≤ ((timeToExcelTimeNs (instantOf c) false : Int) : Rat) / ((86400000000000 : Int) : Rat) := by
+    rw [le_div_iff₀ (by norm_num)]
+    have : (61 * 86400000000000 : Int) ≤ timeToExcelTimeNs (instantOf c) false := by rw [hclosed]; omega
+    exact_mod_cast this
+  linarith
 
 /-! ## float layer: the error of the stored value is derived, not assumed -/
 
@@ -519,57 +465,52 @@ theorem encTol_le_decTol (n : Int) : encTol n ≤ decTol (n / 86400000000000) :=
     · rw [pow2_40, pow2_18]; norm_num
   · rw [if_neg h1, if_neg (by omega), pow2_30, pow2_18]; norm_num
 
-/-- round trip with the float error DERIVED (1900 system, the whole property range 1900-03-01 …
-9999-12-31, every clock reading and zone offset): under the standard model of float64 for the
-encoder, the value `timeToExcelTime` computes reads back as exactly the original wall clock.
+/-- round trip with the float error DERIVED, both date systems, the whole property range
+(1900-03-01 resp. 1904-01-01 00:00:00 … 9999-12-31 23:59:59), every clock reading and zone offset:
+under the standard model of float64 for the encoder, the value is stored as a number and the float
+`timeToExcelTime` computes (never negative) reads back as exactly the original wall clock.
 (The decoder is the exact-arithmetic model; its own float roundings stay measured, see design.) -/
-theorem serial_roundtrip_stdmodel_1900 (R : Rounding) (c : Civil) (off : Int) (hw : ValidWall c)
-    (hr : -25508 ≤ daysFromCivil c.y c.m c.d) (hr2 : daysFromCivil c.y c.m c.d ≤ 2932896) :
-    setCellTime (instantOf c - off * nsPerSec) off false = .num (timeToExcelTimeNs (instantOf c) false) ∧
-    (excelDateToTime (timeToExcelTimeF (ratOps R) (instantOf c) false) false).map civilOf = .ok c := by
+theorem serial_roundtrip_stdmodel (R : Rounding) (c : Civil) (off : Int) (date1904 : Bool) (hw : ValidWall c)
+    (hr : if date1904 then -24107 ≤ daysFromCivil c.y c.m c.d else -25508 ≤ daysFromCivil c.y c.m c.d)
+    (hr2 : daysFromCivil c.y c.m c.d ≤ 2932896) :
+    setCellTime (instantOf c - off * nsPerSec) off date1904 = .num (timeToExcelTimeNs (instantOf c) date1904) ∧
+    (excelDateToTime (timeToExcelTimeF (ratOps R) (instantOf c) date1904) date1904).map civilOf = .ok c := by
   obtain ⟨hv, h0, h1, m0, m1, s0, s1, hns0⟩ := hw
   have hc : c = { y := c.y, m := c.m, d := c.d, h := c.h, mi := c.mi, s := c.s, ns := 0 } := by
     cases c; simp only [] at hns0; subst hns0; rfl
-  have hclosed := serial_daycount_closed c.y c.m c.d c.h c.mi c.s false
-    (by simp only [Bool.false_eq_true, if_false]; exact hr) h0 m0 s0
+  have hclosed := serial_daycount_closed c.y c.m c.d c.h c.mi c.s date1904 hr h0 m0 s0
   rw [← hc] at hclosed
-  simp only [Bool.false_eq_true, if_false] at hclosed
-  have hN : timeToExcelTimeNs (instantOf c) false < 2958466 * 86400000000000 := by rw [hclosed]; omega
-  have he := encode_error R (instantOf c) false hN
-  exact serial_roundtrip_1900 c off _ ⟨hv, h0, h1, m0, m1, s0, s1, hns0⟩ hr (le_trans he (encTol_le_decTol _))
+  have hN : timeToExcelTimeNs (instantOf c) date1904 < 2958466 * 86400000000000 := by
+    rw [hclosed]; cases date1904
+    · simp only [Bool.false_eq_true, if_false]; omega
+    · simp only [if_true]; omega
+  have he := encode_error R (instantOf c) date1904 hN
+  exact serial_roundtrip c off date1904 _ ⟨hv, h0, h1, m0, m1, s0, s1, hns0⟩ hr
+    (encode_nonneg R (instantOf c) date1904 hN) (le_trans he (encTol_le_decTol _))
 
-/-- the same in the 1904 system (1904-01-01 … 9999-12-31), with the one exception stated exactly -/
-theorem serial_roundtrip_stdmodel_1904 (R : Rounding) (c : Civil) (off : Int) (hw : ValidWall c)
-    (hr : -24107 ≤ daysFromCivil c.y c.m c.d) (hr2 : daysFromCivil c.y c.m c.d ≤ 2932896) :
-    (c = { y := 1904, m := 1, d := 1, h := 0, mi := 0, s := 0, ns := 0 } ∧
-      setCellTime (instantOf c - off * nsPerSec) off true = .text) ∨
-    (setCellTime (instantOf c - off * nsPerSec) off true = .num (timeToExcelTimeNs (instantOf c) true) ∧
-      (excelDateToTime (timeToExcelTimeF (ratOps R) (instantOf c) true) true).map civilOf = .ok c) := by
-  obtain ⟨hv, h0, h1, m0, m1, s0, s1, hns0⟩ := hw
-  have hc : c = { y := c.y, m := c.m, d := c.d, h := c.h, mi := c.mi, s := c.s, ns := 0 } := by
-    cases c; simp only [] at hns0; subst hns0; rfl
-  have hclosed := serial_daycount_closed c.y c.m c.d c.h c.mi c.s true
-    (by simp only [if_true]; exact hr) h0 m0 s0
-  rw [← hc] at hclosed
-  simp only [if_true] at hclosed
-  have hN : timeToExcelTimeNs (instantOf c) true < 2958466 * 86400000000000 := by rw [hclosed]; omega
-  have he := encode_error R (instantOf c) true hN
-  exact serial_roundtrip_1904 c off _ ⟨hv, h0, h1, m0, m1, s0, s1, hns0⟩ hr (le_trans he (encTol_le_decTol _))
-
-/-- FINDING (known_findings.d key `enc:zero-serial-stored-as-text`): in the 1904 system the first
-instant of the range, 1904-01-01T00:00:00 (serial 0), read in any zone, is stored as text, not as a
-serial number; so the full-strength round trip fails there -/
-theorem finding_epoch1904_midnight_is_text (off : Int) :
+/-- FIXED (known_findings.d key `enc:zero-serial-stored-as-text`): in the 1904 system the first
+instant of the range, 1904-01-01T00:00:00, read in any zone, is now stored as the number 0 (it used to
+be stored as text because `isNum = excelTime > 0` confused serial 0 with "before the epoch"), and 0
+reads back as 1904-01-01T00:00:00 -/
+theorem fixed_epoch1904_midnight_is_zero (off : Int) :
     setCellTime (instantOf { y := 1904, m := 1, d := 1, h := 0, mi := 0, s := 0, ns := 0 } - off * nsPerSec)
-      off true = .text := by
-  unfold setCellTime
-  simp only [Int.sub_add_cancel]
-  rw [serial_exact]
-  decide
+      off true = .num 0 ∧
+    (excelDateToTime 0 true).map civilOf = .ok { y := 1904, m := 1, d := 1, h := 0, mi := 0, s := 0, ns := 0 } := by
+  have hw : ValidWall { y := 1904, m := 1, d := 1, h := 0, mi := 0, s := 0, ns := 0 } := by
+    refine ⟨by decide, by decide, by decide, by decide, by decide, by decide, by decide, rfl⟩
+  have hz : timeToExcelTimeNs (instantOf { y := 1904, m := 1, d := 1, h := 0, mi := 0, s := 0, ns := 0 }) true = 0 := by
+    rw [serial_exact]; decide
+  have h := serial_roundtrip { y := 1904, m := 1, d := 1, h := 0, mi := 0, s := 0, ns := 0 } off true 0 hw
+    (by decide) (le_refl 0)
+    (by unfold timeToExcelTime; rw [hz]
+        simp only [Int.cast_zero, zero_div, sub_self, abs_zero, Int.zero_ediv]
+        unfold decTol; rw [if_pos (by decide), pow2_38]; norm_num)
+  rw [hz] at h
+  exact h
 
 /-! ## non-vacuity -/
 
-/-- the hypotheses of `serial_roundtrip_partial` are satisfiable (2024-02-29 23:59:59 in a −09:30
+/-- the hypotheses of `serial_roundtrip` are satisfiable (2024-02-29 23:59:59 in a −09:30
 zone, stored exactly) and the tolerances are positive -/
 theorem roundtrip_nonvacuous :
     ValidDate 2024 2 29 ∧ (-25508 : Int) ≤ daysFromCivil 2024 2 29 ∧
@@ -578,7 +519,7 @@ theorem roundtrip_nonvacuous :
     (0 : Rat) < decTol 45351 ∧ (0 : Rat) < decTol 61 ∧ encTol (45351 * 86400000000000) < decTol 45351 ∧
     encTol (61 * 86400000000000) < decTol 61 := by
   refine ⟨by decide, by decide, ?_, ?_, ?_, ?_, ?_⟩
-  · unfold setCellTime; simp only [Int.sub_add_cancel]; rw [serial_exact]; decide
+  · rw [setCellTime_wall, serial_exact]; decide
   · unfold decTol; rw [if_neg (by decide), pow2_18]; norm_num
   · unfold decTol; rw [if_pos (by decide), pow2_38]; norm_num
   · unfold decTol encTol; rw [if_neg (by decide), if_neg (by decide), pow2_18, pow2_30]; norm_num
